@@ -410,7 +410,7 @@ func analyse(gs *GroupScan, g *GroupCfg, rec *ScanRecord) *Analysis {
 			} else if kind == "untaint" {
 				a.UntaintAttempted[c.Target] = true
 			}
-		case OpPut:
+		case OpPut, OpPatch:
 			if cur != nil && cur.Node == c.Target {
 				cur.Put = c
 				cur.PutOK = c.Err == ""
@@ -488,7 +488,7 @@ func analyse(gs *GroupScan, g *GroupCfg, rec *ScanRecord) *Analysis {
 	// the reap phase (terminate / delete calls) do not change it, failed taint writes do.
 	taintPhaseOK := true
 	for _, c := range gs.Calls {
-		if (c.Op == OpGet || c.Op == OpPut) && (c.Err != "" || c.Fault != "") {
+		if (c.Op == OpGet || c.Op == OpPut || c.Op == OpPatch) && (c.Err != "" || c.Fault != "") {
 			taintPhaseOK = false
 		}
 		if c.Op == OpSetDesired || c.Op == OpCreateFleet || c.Op == OpDescribeInst && c.Fault == FLatency {
